@@ -50,7 +50,11 @@ func (fs LocalFileSystem) Open(ctx context.Context, name string) (io.ReadCloser,
 	if err != nil {
 		return nil, err
 	}
-	return os.Open(p)
+	f, err := os.Open(p)
+	if err != nil {
+		return nil, errFromOS(err)
+	}
+	return f, nil
 }
 
 func fileInfoFromOS(p string, fi os.FileInfo) *FileInfo {
